@@ -121,7 +121,8 @@ Record sstate := {
   s_uses_observed : bool;
   s_uses_batch_size : bool;
   s_uses_meta : bool;
-  s_parameter : bool
+  s_parameter : bool;
+  s_opid : name                 (* identity of the operation callable (survives NodeReference.become) *)
 }.
 
 Record snet := {
@@ -148,6 +149,7 @@ Inductive err :=
 | ECycle
 | EMissingNode (n : name)
 | EMissingOutput (n : name)
+| EBadCall (n : name)
 | EFuel.
 
 Inductive res (A : Type) := Ok (a : A) | Err (e : err).
@@ -208,7 +210,7 @@ Fixpoint compile_outputs (ns : list (name * sstate)) : res (list (name * cnode))
       match s_output st, s_has_op st with
       | Some _, true => Err (EBothOutputAndOp n)
       | Some v, false => Ok ((n, {| c_out := Some v; c_op := None |}) :: rest)
-      | None, true => Ok ((n, {| c_out := None; c_op := Some (OpUser n) |}) :: rest)
+      | None, true => Ok ((n, {| c_out := None; c_op := Some (OpUser (s_opid st)) |}) :: rest)
       | None, false => Err (ENoOutputOrOp n)
       end
   end.
@@ -466,6 +468,13 @@ Fixpoint gather (g : cnet) (ps : list (name * param)) : res (list (param * value
       end
   end.
 
+(** args_to_tuple takes positional arguments only: a named parent makes the call fail *)
+Definition call_ok (o : op) (pv : list (param * value)) : bool :=
+  match o with
+  | OpTuple => forallb (fun x : param * value => match fst x with PInt _ => true | PStr _ => false end) pv
+  | OpUser _ => true
+  end.
+
 (** the execution loop; the log records every operation call in order *)
 Fixpoint run_order (g : cnet) (order : list name) (log : list name) : res (cnet * list name) :=
   match order with
@@ -478,6 +487,7 @@ Fixpoint run_order (g : cnet) (order : list name) (log : list name) : res (cnet 
           | Some _, Some _ => Err (EBothOutputAndOp n)
           | _, Some o =>
               do pv <- gather g (preds (c_edges g) n);
+              if negb (call_ok o pv) then Err (EBadCall n) else
               run_order (add_node n {| c_out := Some (mk_call o pv); c_op := None |} g) r (log ++ [n])
           | Some _, None => run_order g r log
           | None, None => Err (ENoOutputOrOp n)
